@@ -61,14 +61,14 @@ def long_phases(seed):
 
 def cases(tier, seed):
     L = bounds(tier)['max_len']
-    for name, _ in long_phases(seed):
-        for si in range(3):
-            for lay in LAYOUTS:
-                yield ('long', name, si, lay, seed)
     for s in enum.sequences(range(5), 1, L):
         for si in range(3):
             for lay in LAYOUTS:
                 yield ('seq', s, si, lay, seed)
+    for name, _ in long_phases(seed):
+        for si in range(3):
+            for lay in LAYOUTS:
+                yield ('long', name, si, lay, seed)
 
 
 def decode_case(c):
